@@ -43,6 +43,8 @@ Record obj := {
   onotify : bool;                   (* close(): the state was streamOpened at the CAS *)
   osendb : list Z; osheap : bool;
   orecvb : list rslice; ocpin : bool; opinned : list Z;
+  oscpin : bool; orheap : bool;     (* flags of the linkedBuffer objects, which ReleaseReadAndReuse swaps: currentPinned of the
+                                       one that is the send buffer now, isFromShm = false of the one that is the receive buffer *)
   opend : list pentry;
   ocpc : nat }.                     (* progress of Stream.close(): 0 = not closing ... 6 = finished *)
 
@@ -71,7 +73,8 @@ Inductive clabel :=
 
 Definition fresh_obj (e : bool) (sid : nat) : obj :=
   {| oe := e; osid := sid; oclosed := false; ohalf := false; oinfb := false; onotify := false;
-     osendb := []; osheap := false; orecvb := []; ocpin := false; opinned := []; opend := []; ocpc := O |}.
+     osendb := []; osheap := false; orecvb := []; ocpin := false; opinned := []; oscpin := false; orheap := false;
+     opend := []; ocpc := O |}.
 
 Definition cinit (f : bool) (n : nat) (qc : Z) : cst :=
   {| cfx := f; cqcap := qc; cfree := map Z.of_nat (seq 0 n); cext := []; cleaked := [];
@@ -138,7 +141,12 @@ Definition usable (o : nat) (s : cst) : bool :=
 Definition upd_obj (v : obj) (hf fb nt cl : bool) (sb : list Z) (sh : bool) (rb : list rslice) (cp : bool)
            (pn : list Z) (pe : list pentry) (pc : nat) : obj :=
   {| oe := oe v; osid := osid v; oclosed := cl; ohalf := hf; oinfb := fb; onotify := nt;
-     osendb := sb; osheap := sh; orecvb := rb; ocpin := cp; opinned := pn; opend := pe; ocpc := pc |}.
+     osendb := sb; osheap := sh; orecvb := rb; ocpin := cp; opinned := pn; oscpin := oscpin v; orheap := orheap v;
+     opend := pe; ocpc := pc |}.
+Definition with_flags (v : obj) (sc rh : bool) : obj :=
+  {| oe := oe v; osid := osid v; oclosed := oclosed v; ohalf := ohalf v; oinfb := oinfb v; onotify := onotify v;
+     osendb := osendb v; osheap := osheap v; orecvb := orecvb v; ocpin := ocpin v; opinned := opinned v;
+     oscpin := sc; orheap := rh; opend := opend v; ocpc := ocpc v |}.
 
 (* ---- the own action of a socket event at the receiving loop (no slots travel over the socket) ---- *)
 Definition sock_data (e : bool) (sid : nat) (bytes : Z) (s : cst) : cst :=
@@ -169,7 +177,7 @@ Definition c_write (o : nat) (new : list Z) (heap : bool) (s : cst) : option cst
                (cset_free_ext (minus_list (cfree s) new) (cext s) s)).
 
 Definition sent (v : obj) (fb : bool) : obj :=
-  upd_obj v (ohalf v) fb (onotify v) (oclosed v) [] false (orecvb v) (ocpin v) (opinned v) (opend v) (ocpc v).
+  with_flags (upd_obj v (ohalf v) fb (onotify v) (oclosed v) [] false (orecvb v) (ocpin v) (opinned v) (opend v) (ocpc v)) false (orheap v).
 
 Definition c_flush (o : nat) (sizes : list Z) (wpos : nat) (s : cst) : option cst :=
   let v := objs s o in
@@ -192,8 +200,8 @@ Definition c_moveto (o : nat) (s : cst) : option cst :=
   let v := objs s o in
   if negb (usable o s) then None else
   let '(rb, fr0, fb) := fold_left (fun acc p => move_entry p acc) (opend v) (orecvb v, [], oinfb v) in
-  Some (cadd_free fr0 (set_obj o (upd_obj v (ohalf v) fb (onotify v) (oclosed v) (osendb v) (osheap v) rb (ocpin v)
-                                          (opinned v) [] (ocpc v)) s)).
+  Some (cadd_free fr0 (set_obj o (with_flags (upd_obj v (ohalf v) fb (onotify v) (oclosed v) (osendb v) (osheap v) rb (ocpin v)
+                                          (opinned v) [] (ocpc v)) (oscpin v) (orheap v || existsb is_pfb (opend v))) s)).
 
 Definition c_readk (o : nat) (kind : rkind) (k : Z) (s : cst) : option cst :=
   let v := objs s o in
@@ -225,7 +233,7 @@ Definition c_reuse (o : nat) (s : cst) : option cst :=
   match orecvb v with
   | [a] => match rs_slot a with
            | Some x => Some (cadd_free (opinned v)
-                               (set_obj o (upd_obj v (ohalf v) false (onotify v) (oclosed v) [x] false [] cp [] [] (ocpc v)) s))
+                               (set_obj o (with_flags (upd_obj v (ohalf v) false (onotify v) (oclosed v) [x] (orheap v) [] (oscpin v) [] [] (ocpc v)) cp (osheap v)) s))
            | None => Some (cadd_free (opinned v)
                              (set_obj o (upd_obj v (ohalf v) false (onotify v) (oclosed v) [] (osheap v) [] cp [] [] (ocpc v)) s))
            end
@@ -251,14 +259,14 @@ Definition c_close_step (o : nat) (s : cst) : option cst :=
                      (set_obj o (upd_obj v (ohalf v) (oinfb v) (onotify v) (oclosed v) (osendb v) (osheap v) (orecvb v)
                                          (ocpin v) (opinned v) [] 3) s))
   | 3%nat => (* recvBuf.recycle() *)
-             let s1 := set_obj o (upd_obj v (ohalf v) (oinfb v) (onotify v) (oclosed v) (osendb v) (osheap v) []
-                                          false [] (opend v) 4) s in
+             let s1 := set_obj o (with_flags (upd_obj v (ohalf v) (oinfb v) (onotify v) (oclosed v) (osendb v) (osheap v) []
+                                          false [] (opend v) 4) (oscpin v) false) s in
              Some (if cfx s then cadd_free (opinned v ++ rslots (orecvb v)) s1
                    else cadd_leaked (opinned v) (cadd_free (rslots (orecvb v)) s1))
   | 4%nat => (* sendBuf.recycle() *)
              Some (cadd_free (osendb v)
-                     (set_obj o (upd_obj v (ohalf v) (oinfb v) (onotify v) (oclosed v) [] false (orecvb v)
-                                         (ocpin v) (opinned v) (opend v) 5) s))
+                     (set_obj o (with_flags (upd_obj v (ohalf v) (oinfb v) (onotify v) (oclosed v) [] false (orecvb v)
+                                         (ocpin v) (opinned v) (opend v) 5) false (orheap v)) s))
   | 5%nat => (* notify the peer *)
              let s1 := set_obj o (with_cpc v 6) s in
              let t := negb (oe v) in
@@ -303,8 +311,8 @@ Definition c_loop_check (e : bool) (s : cst) : option cst :=
     let v := objs s o in
     if oclosed v then
       (* late data for a closed stream: pendingData.clear(); recvBuf.recycle() *)
-      let s1 := set_obj o (upd_obj v (ohalf v) (oinfb v) (onotify v) (oclosed v) (osendb v) (osheap v) [] false
-                                   (if cfx s then [] else opinned v) [] (ocpc v)) s in
+      let s1 := set_obj o (with_flags (upd_obj v (ohalf v) (oinfb v) (onotify v) (oclosed v) (osendb v) (osheap v) [] false
+                                   (if cfx s then [] else opinned v) [] (ocpc v)) (oscpin v) false) s in
       Some (set_loop e LIdle
               (cadd_free (pslots (opend v) ++ rslots (orecvb v) ++ (if cfx s then opinned v else [])) s1))
     else Some (set_loop e LIdle s)
